@@ -575,11 +575,11 @@ PLAN = {
     "C03": ((1,), [("g1", 220, 3000), ("g2", 40, 800), ("g3", 4, 24), ("g5", 30, 600), ("g11", 12, 120), ("g4", 12, 100), ("g3s", 1, 6), ("g10", 6, 40)]),
     "C04": ((2,), [("g1", 220, 3000), ("g2", 40, 800), ("g3", 4, 24), ("g5", 30, 600), ("g9", 40, 400), ("g11", 12, 120), ("g4", 12, 100), ("g3s", 1, 6), ("g10", 6, 40)]),
     "C05": ((0,), [("g11", 20, 200), ("g1", 220, 3000), ("g2", 40, 800), ("g3", 4, 24), ("g5", 30, 600), ("g4", 12, 100), ("g3s", 1, 6), ("g10", 6, 40)]),
-    "C06": ((0, 1, 2), [("g13", 2, 6), ("g7", 160, 2500), ("g1", 120, 1500), ("g5", 20, 300), ("g3", 2, 10), ("g11", 8, 60)]),
+    "C06": ((0, 1, 2), [("g15", 3, 5), ("g13", 2, 6), ("g7", 160, 2500), ("g1", 120, 1500), ("g5", 20, 300), ("g3", 2, 10), ("g11", 8, 60)]),
     "C07": ((0, 1, 2), [("g17", 4, 7), ("g11", 20, 200), ("g1", 150, 2000), ("g2", 40, 800), ("g3", 5, 30), ("g5", 40, 800), ("g7", 60, 400), ("g4", 70, 700), ("g3s", 1, 8)]),
-    "C08": ((0, 1, 2), [("g15", 7, 7), ("g5", 90, 2500)]),
+    "C08": ((0, 1, 2), [("g15", 9, 9), ("g5", 90, 2500)]),
     "C09": ((0, 1, 2), [("g17", 7, 7), ("g13", 3, 12), ("g7", 200, 3000), ("g1", 100, 1500), ("g5", 30, 400), ("g3", 2, 10), ("g11", 8, 60)]),
-    "C10": ((0, 1, 2), [("g15", 7, 7), ("g6", 620, 4000), ("g3", 5, 30), ("g3s", 2, 10), ("g4", 14, 140), ("g11", 10, 80), ("g5", 10, 120)]),
+    "C10": ((0, 1, 2), [("g15", 9, 9), ("g6", 620, 4000), ("g3", 5, 30), ("g3s", 2, 10), ("g4", 14, 140), ("g11", 10, 80), ("g5", 10, 120)]),
     "C11": ((0, 1, 2), [("g3", 7, 40), ("g3s", 3, 16), ("g4", 35, 350)]),
     "C12": ((0,), [("g18", 4, 12), ("g3", 2, 8), ("g1", 200, 3000), ("g2", 40, 800), ("g5", 40, 800), ("g11", 10, 100), ("g10", 6, 40)]),
     "C13": ((0, 1, 2), [("g16", 24, 60), ("g1", 200, 3000), ("g2", 40, 800), ("g3", 4, 24), ("g5", 30, 600), ("g10", 12, 60), ("g4", 35, 350), ("g11", 30, 300)]),
@@ -594,6 +594,15 @@ def g9_orders(rng, n, prefix="g9"):
     k = 0
     base_sets = [[b"a", b"ab", b"abc"], [b"ab", b"abc", b"b", b"bc"], [b"aa", b"a", b"aab", b"ab"],
                  [b"abcd", b"bc", b"b", b"abc"]]
+    # long shadowing prefixes: a registered pattern of 63 / 64 / 65 / 130 / 260 symbols and a later pattern
+    # that extends it (depth bookkeeping at word boundaries), both variants
+    for L in (63, 64, 65, 130, 260):
+        for var in ("bw", "cw"):
+            unit = b"a" if var == "bw" else "\u00e9".encode()
+            P = unit * L
+            pats = [P, P + b"b", b"b", P[: len(unit) * (L // 2)] + b"c"]
+            hays = [P + b"b", unit * 3 + P + b"bb"]
+            cases.append(Case(f"{prefix}_long{L}{var}", var, 2, 16, "u32", "build", "S", [(p, j) for j, p in enumerate(pats)], hays, b"", suite="orders"))
     for pats in base_sets:
         for perm in itertools.permutations(pats):
             hays = [b"abcd", b"aabcab", b"xbcabcd"]
@@ -749,11 +758,14 @@ def g15_long(rng, n, prefix="g15"):
     frequencies, pattern lengths and chain depths beyond 16 bits.  Implementation + specification
     only (ops letter 'N'), like g13."""
     cases = []
-    plan = [("cw", 0, [b"a" * 65536]), ("bw", 0, [b"a" * 65536]), ("cw", 1, [b"a" * 40000, b"ba" * 20000, b"a" * 25536 + b"c"]),
+    plan = [("bw", 0, [b"ab" * 150, b"c" * 257, b"ab" * 130 + b"x"]), ("cw", 0, ["\u00e9".encode() * 150, b"c" * 300]),
+            ("cw", 0, [b"a" * 65536]), ("bw", 0, [b"a" * 65536]), ("cw", 1, [b"a" * 40000, b"ba" * 20000, b"a" * 25536 + b"c"]),
             ("cw", 2, ["\u00e9".encode() * 65537, b"x"]), ("bw", 2, [b"ab" * 33000, b"b"])]
     for k, (var, kind, pats) in enumerate(plan[:n]):
         pv = [(p, j + 1) for j, p in enumerate(pats)]
         hs = [b"aaab", pats[0][:20] + b"x" + pats[-1][:6]]
+        if len(pats[0]) <= 600:      # patterns of a few hundred bytes: they occur in the haystack as a whole
+            hs = [b"zz" + pats[0] + b"q" + pats[1] + pats[-1][:100], pats[-1] + pats[0][:50]]
         cases.append(Case(f"{prefix}_{k}", var, kind, 16, "u32", "values" if k % 2 == 0 else "build", "SN", pv, hs, b"", suite="long"))
     if n > len(plan):
         # an alphabet above 2^16 distinct characters (character-wise block length 2^17): 66 patterns of
